@@ -1,3 +1,3 @@
 #!/bin/bash
 # maintenance: regenerate tables/inventory.json, tables/inventory_findings.json and the R-INV part of known_findings.json
-cd "$(dirname "$0")/.." && python3 tools/mk_table.py && python3 tools/reasons.py | tail -3 && python3 tools/mk_known.py && python3 tools/mk_mustpass.py --all
+cd "$(dirname "$0")/.." && python3 tools/mk_table.py && python3 tools/reasons.py | tail -3 && python3 tools/mk_known.py && python3 tools/mk_mustpass.py --all && python3 tools/mk_adts.py
